@@ -427,19 +427,47 @@ def fixed_sizes(repo: Repo, rep, P: str, secs):
     from . import c02
     c02.cmid_record_pair(repo, rep, P, "R4")
     # field positions: message_type, channel, slope, 0, parameter, 0, set-marker  ↔ offsets table
-    if gargs is not None and sargs is not None and len(gargs) == len(sargs) == 7:
-        gnames = [parity.last(norm(a)) if attr_chain(a) or isinstance(a, ast.Attribute) else norm(a) for a in gargs]
-        snames = [parity.last(norm(a)) for a in sargs]
-        pairs = [(0, "message_type"), (1, "channel"), (2, "slope"), (4, "message_parameter")]
-        bad = [(i, nm) for i, nm in pairs if nm not in gnames[i] or nm not in snames[i]]
-        if bad:
-            rep.violation(f"{P}.R4", con, f"pack fields {gnames} / unpack targets {snames}",
-                          f"CMID field order differs from the documented offsets at positions {bad}", f"{cm.file.rel}:{gg.lineno}")
+    # byte offsets of the packed fields (pad bytes and explicit zeros both count) ↔ the documented offsets.  That the setter reads
+    # each field back from the bytes it was written to is decided bit by bit by cmid_record_pair above.
+    if gargs is not None and gf is not None:
+        from ..packed import _fmt_items, single_defs, resolve_names
+        try:
+            _, items = _fmt_items(gf)
+        except Exception:
+            items = None
+        gdefs = single_defs(gg)
+        if items is not None and len([x for x in items if x[0] != "x"]) == len(gargs):
+            off, ai = 0, 0
+            at: Dict[str, int] = {}
+            zero_ok = True
+            covered = set()
+            for ch, size in items:
+                if ch != "x":
+                    a = resolve_names(gargs[ai], gdefs)
+                    ai += 1
+                    t_ = norm(a)
+                    if t_.endswith(".value"):
+                        t_ = t_[:-len(".value")]
+                    if t_.startswith("self."):
+                        at[t_[len("self."):]] = off
+                    elif off in (3, 6) and t_ != "0":
+                        zero_ok = False
+                for b_ in range(off, off + size):
+                    covered.add(b_)
+                off += size
+            want = {"message_type": 0, "channel": 1, "slope": 2, "message_parameter": 4}
+            bad = [(nm, at.get(nm)) for nm, o_ in want.items() if at.get(nm) != o_]
+            if bad and all(v is None for _, v in bad) and not at:
+                rep.inconclusive(f"{P}.R4", con, norm(gg)[:120], "packed fields not recognised as attributes of the map", f"{cm.file.rel}:{gg.lineno}")
+            elif bad:
+                rep.violation(f"{P}.R4", con, f"fields at {at}",
+                              f"CMID field order differs from the documented offsets: {bad} (documented {want})", f"{cm.file.rel}:{gg.lineno}")
+            else:
+                rep.ok(f"{P}.R4", con, f"fields at {at}", "type@0 channel@1 slope@2 parameter@4 as documented")
+            if not zero_ok:
+                rep.violation(f"{P}.R4", con, "reserved bytes", "bytes 3 and 6 are documented reserved zero", f"{cm.file.rel}:{gg.lineno}")
         else:
-            rep.ok(f"{P}.R4", con, f"fields {gnames[:5]}", "type@0 channel@1 slope@2 parameter@4 as documented")
-        reserved = [gnames[3], gnames[5]]
-        if reserved != ["0", "0"]:
-            rep.violation(f"{P}.R4", con, f"reserved bytes written as {reserved}", "bytes 3 and 6 are documented reserved zero", f"{cm.file.rel}:{gg.lineno}")
+            rep.inconclusive(f"{P}.R4", con, f"pack {gf!r} with {len(gargs)} values", "field positions not derived", f"{cm.file.rel}:{gg.lineno}")
     # PICO: 32 bytes (validator) = documented bitmap (32 bytes)
     pat = repo.cls("Pattern", module="rv.pattern")
     icon = pat.assigns.get("icon")
